@@ -314,17 +314,23 @@ class Ctx:
             self.evaluations += 1
             # a share of the cases is put to the implementation with candidates numbered from 0 (common.LABEL_MODE); a case that
             # was reported carries the mode with it (_labels), so that its replay asks the same question
-            lm = c.get('_labels') or ({0: 'ints0', 1: 'objs'}.get(int(common.case_hash(c), 16) % 6, 'std')
-                                       if (self.zero_labels is True or (self.zero_labels and stream in self.zero_labels)) and stream != 'replay' else 'std')
-            if lm != 'std':
-                c = dict(c, _labels=lm)
-                self.dist['labels:' + lm] += 1
+            c, lm = self.pick_labels(stream, c)
             common.LABEL_MODE[0] = lm
             try:
                 self._one(stream, c, mo, lines, impl, canon, nontrivial, spec, known_class, limit)
             finally:
                 common.LABEL_MODE[0] = 'std'
         self.streams[stream] = dict(cases=len(cases), deviations=self._nd)
+
+    def pick_labels(self, stream, c):
+        """-> (case carrying its label mode, label mode): a share of the cases of the checks that opted in (ZERO_LABELS) is put to the
+        implementation with candidates numbered from 0 or as opaque objects; a reported case keeps its mode (_labels) for the replay"""
+        lm = c.get('_labels') or ({0: 'ints0', 1: 'objs'}.get(int(common.case_hash({k: v for k, v in c.items() if not k.startswith('_')}), 16) % 6, 'std')
+                                   if (self.zero_labels is True or (self.zero_labels and stream in self.zero_labels)) and stream != 'replay' else 'std')
+        if lm != 'std':
+            c = dict(c, _labels=lm)
+            self.dist['labels:' + lm] += 1
+        return c, lm
 
     def _one(self, stream, c, mo, lines, impl, canon, nontrivial, spec, known_class, limit):
         if True:
